@@ -66,6 +66,7 @@ type Term struct {
 	evEpoch uint64
 	defLvl  int32 // solver scope level at which defined (-1 = not)
 	size    int32
+	sup2    [2]*Term // when sup == multiSup and exactly two variables are involved
 	sup     *Term // nil: no variables; a Var: depends on exactly this variable; multiSup: several
 }
 
@@ -90,6 +91,18 @@ type TermStore struct {
 	varsMap map[string]*Term
 	ovVar   *Term
 	ovVal   uint64
+	ovVar2  *Term
+	ovVal2  uint64
+}
+
+// EvalWith2 evaluates t with two variables overridden.
+func (ts *TermStore) EvalWith2(t *Term, v1 *Term, x1 uint64, v2 *Term, x2 uint64) uint64 {
+	ts.ovVar, ts.ovVal, ts.ovVar2, ts.ovVal2 = v1, x1, v2, x2
+	ts.epoch++
+	r := ts.Eval(t)
+	ts.ovVar, ts.ovVar2 = nil, nil
+	ts.epoch++
+	return r
 }
 
 // EvalWith evaluates t under the current model with variable v overridden.
@@ -176,6 +189,40 @@ func (ts *TermStore) mk(op Op, w uint8, a, b, c *Term, k uint64, name string) *T
 			} else if t.sup != x.sup {
 				t.sup = multiSup
 			}
+		}
+	}
+	if t.sup == multiSup {
+		var vs [3]*Term
+		n := 0
+		add := func(v *Term) {
+			if v == nil || n > 2 {
+				return
+			}
+			for i := 0; i < n && i < 3; i++ {
+				if vs[i] == v {
+					return
+				}
+			}
+			if n < 3 {
+				vs[n] = v
+			}
+			n++
+		}
+		for _, x := range [3]*Term{a, b, c} {
+			if x == nil || x.sup == nil {
+				continue
+			}
+			if x.sup != multiSup {
+				add(x.sup)
+			} else if x.sup2[0] != nil {
+				add(x.sup2[0])
+				add(x.sup2[1])
+			} else {
+				n = 9
+			}
+		}
+		if n == 2 {
+			t.sup2 = [2]*Term{vs[0], vs[1]}
 		}
 	}
 	ts.computeRange(t)
@@ -731,6 +778,11 @@ func (ts *TermStore) Bin(op Op, a, b *Term) *Term {
 		if b.IsConst() && b.k == 0 {
 			return a
 		}
+		if op == OpBOr && !a.IsConst() && !b.IsConst() {
+			if r := ts.mergeSlices(a, b, w); r != nil {
+				return r
+			}
+		}
 		if a == b {
 			if op == OpBOr {
 				return a
@@ -908,6 +960,8 @@ func (ts *TermStore) Eval(t *Term) uint64 {
 	case OpVar:
 		if t == ts.ovVar {
 			v = ts.ovVal
+		} else if t == ts.ovVar2 {
+			v = ts.ovVal2
 		} else {
 			v = ts.model[t.name] & mask(t.w)
 		}
@@ -1088,4 +1142,80 @@ func (t *Term) str(depth int) string {
 	}
 	sb.WriteByte(')')
 	return sb.String()
+}
+
+// ---------- bit-slice reassembly: (zext(x[15:8]) << 8) | zext(x[7:0])  ==>  x ----------
+
+type bslice struct {
+	src *Term
+	lo  uint8 // first bit of src
+	w   uint8 // number of bits
+	pos uint8 // position in the result
+}
+
+func (ts *TermStore) slicesOf(t *Term, out *[]bslice, shift uint8, width uint8) bool {
+	if len(*out) > 8 {
+		return false
+	}
+	switch t.op {
+	case OpConst:
+		return t.k == 0
+	case OpZExt:
+		return ts.slicesOf(t.a, out, shift, width)
+	case OpShl:
+		if !t.b.IsConst() || t.b.k >= 64 {
+			return false
+		}
+		return ts.slicesOf(t.a, out, shift+uint8(t.b.k), width)
+	case OpBOr:
+		return ts.slicesOf(t.a, out, shift, width) && ts.slicesOf(t.b, out, shift, width)
+	case OpExtract:
+		if int(shift)+int(t.w) > int(width) {
+			return false
+		}
+		*out = append(*out, bslice{t.a, uint8(t.k), t.w, shift})
+		return true
+	case OpVar:
+		if int(shift)+int(t.w) > int(width) {
+			return false
+		}
+		*out = append(*out, bslice{t, 0, t.w, shift})
+		return true
+	}
+	return false
+}
+
+func (ts *TermStore) mergeSlices(a, b *Term, w uint8) *Term {
+	var sl []bslice
+	if !ts.slicesOf(a, &sl, 0, w) || !ts.slicesOf(b, &sl, 0, w) || len(sl) < 2 {
+		return nil
+	}
+	// sort by position
+	for i := 1; i < len(sl); i++ {
+		for j := i; j > 0 && sl[j].pos < sl[j-1].pos; j-- {
+			sl[j], sl[j-1] = sl[j-1], sl[j]
+		}
+	}
+	src := sl[0].src
+	for i := range sl {
+		if sl[i].src != src {
+			return nil
+		}
+		if i > 0 {
+			p := sl[i-1]
+			if sl[i].pos != p.pos+p.w || sl[i].lo != p.lo+p.w {
+				return nil
+			}
+		}
+	}
+	lo := sl[0].lo
+	tot := uint8(0)
+	for _, x := range sl {
+		tot += x.w
+	}
+	r := ts.ZExt(ts.Extract(src, lo, tot), w)
+	if sl[0].pos > 0 {
+		r = ts.Bin(OpShl, r, ts.Const(w, uint64(sl[0].pos)))
+	}
+	return r
 }
